@@ -21,7 +21,11 @@ const DOCS: &[&str] = &[
     "",
     "TYPE\nc : (r, g);\nEND_TYPE\n",
 ];
-const URIS: &[&str] = &["file:///w/a.st", "file:///w/b.st", "file:///w/sub/c.iec", "untitled:Untitled-1", "http://example.com/x.st", "file:///w/d%20e.st"];
+// (more than a dozen distinct file documents can be open in one session)
+const URIS: &[&str] = &[
+    "file:///w/a.st", "file:///w/b.st", "file:///w/sub/c.iec", "untitled:Untitled-1", "http://example.com/x.st", "file:///w/d%20e.st", "file:///w/f01.st", "file:///w/f02.st", "file:///w/f03.st",
+    "file:///w/f04.st", "file:///w/f05.st", "file:///w/f06.st", "file:///w/f07.st", "file:///w/f08.st", "file:///w/f09.st", "file:///w/%C3%BC.st", "file:///W/A.ST",
+];
 const UNKNOWN_REQUESTS: &[&str] = &["textDocument/hover", "workspace/symbol", "textDocument/completion", "textDocument/definition", "custom/doesNotExist", "$/unknownRequest"];
 const UNKNOWN_NOTIFICATIONS: &[&str] = &["$/setTrace", "textDocument/didClose", "textDocument/didSave", "workspace/didChangeConfiguration", "custom/note", "$/cancelRequest"];
 
@@ -266,8 +270,20 @@ fn check_tape(tape: &[u8], gates: &Gates, stats: &mut Stats, counting: bool, max
     match ledger(&s, &run) {
         Ok(()) => Ok(()),
         Err((kind, detail)) if kind == "infrastructure-timeout" => {
-            stats.inconclusive += 1;
+            // a slow machine, or a server that has stopped for good?  One more attempt with a much
+            // longer limit; only a server that again leaves requests unanswered is reported
             let _ = detail;
+            let run2 = lsp_run_limit(&s.messages, 300);
+            let answers = |r: &LspRun| r.frames.iter().filter(|f| f.get("method").is_none() && f.get("id").is_some()).count();
+            if run2.timed_out && answers(&run2) < s.requests.len() && answers(&run) < s.requests.len() {
+                return Err(Failure::new(
+                    "ledger",
+                    "server-stopped-responding",
+                    format!("the server was still running 90 s and, in a second attempt, 300 s after its input ended, with {} of {} requests answered", answers(&run2), s.requests.len()),
+                    json!({"script": s.messages, "frames": run2.frames}),
+                ));
+            }
+            stats.inconclusive += 1;
             Ok(())
         }
         Err((kind, detail)) => Err(Failure::new("ledger", &kind, detail, json!({"script": s.messages, "frames": run.frames, "status": run.status}))),
@@ -294,7 +310,7 @@ pub fn run(ctx: &Ctx) -> i32 {
     rep.add(out);
     rep.replay_witnesses(&ctx.findings, &|w| witness(w));
     rep.extra.insert("gates_off".into(), json!(off));
-    rep.assumptions = vec!["messages with malformed parameters for their method are outside the property".into(), "a server that is still running 90 s after stdin was closed is reported as inconclusive (exit 2), never as a violation".into()];
+    rep.assumptions = vec!["messages with malformed parameters for their method are outside the property".into(), "a server that is still running 90 s after stdin was closed is run again with a 300 s limit; only if it then again leaves requests unanswered is that a violation (server-stopped-responding), otherwise inconclusive".into()];
     rep.wall_s = clock.secs();
     rep.finish()
 }
